@@ -1,5 +1,6 @@
 """C13 — query(k, threshold) is the exact, fresh top-k of the sketch's stored counts."""
 import hh_common
+import lib
 
 ALLOWED_AXIOMS = frozenset()
 MANIFEST = dict(
@@ -25,7 +26,8 @@ MANIFEST = dict(
 def run(ctx):
     ctx.level = "proof"
     quick = ctx.tier == "quick"
-    hh_common.run_suite(ctx, "C13", 1200 if quick else 15000, 500 if quick else 5000)
+    hh_common.run_suite(ctx, "C13", 1200 if quick else 10000, 500 if quick else 5000)
+    replay_F6(ctx)
     ctx.cov["rule"] = (
         "cases = 5 corpus programs (cache hit/miss, add with multiplicity 0, merge with an empty sketch, default threshold "
         "wrapping past 2^32) + random programs of <= 25 operations interleaving add/update/ngram/merge/save-load with "
@@ -42,3 +44,31 @@ def run(ctx):
                         "thresholds passed explicitly are in [0, 2^32-1] (others raise OverflowError)",
                         "n_added_records does not wrap at 2^64; keys shorter than 2^64 bytes; multiplicities >= 0",
                         "lhh/lhh_count/key_lens/candidate_set are only changed through the public methods"]
+
+
+def replay_F6(ctx):
+    """Known finding F6 (known_findings.json): the default threshold wraps modulo 2^32 once phi*n_added >= 2^32.
+    The suite's oracle follows the code's wrap in exactly that regime (phi*n_added >= 2^32) and the property text
+    (floor(phi*n_added)) everywhere else, so any other deviation is still reported."""
+    import warnings
+    if not any(f["id"] == "F6" and f["status"] == "known" for f in lib.load_known_findings()):
+        return
+    from sketchnu.heavyhitters import HeavyHitters
+    hh = HeavyHitters(1, 1, 4, phi=1.0)
+    hh.add(b"a", 2**32 - 1)
+    hh.add(b"a", 6)
+    with warnings.catch_warnings():
+        warnings.simplefilter("ignore")
+        ans = hh.query(None)
+    n_added = int(hh.n_added())
+    want_thr = int(1.0 * n_added)
+    if ans == [(b"a", 4294967295)] and int(hh.threshold_sort) == want_thr % 2**32 and want_thr >= 2**32:
+        ctx.known_finding(f"F6: default threshold np.uint32(phi*n_added) wraps modulo 2^32: HeavyHitters(1,1,4,phi=1.0) with "
+                          f"n_added={n_added} uses threshold {int(hh.threshold_sort)} instead of {want_thr} and reports "
+                          f"{ans} (count below floor(phi*n_added))")
+    elif ans == []:
+        ctx.notes.append("F6 no longer reproduces: query() returns nothing when phi*n_added >= 2^32")
+    else:
+        ctx.violation({"finding": "F6 replay", "n_added": n_added, "answer": [[list(k), int(v)] for k, v in ans],
+                       "threshold_sort": int(hh.threshold_sort)},
+                      "default-threshold behaviour beyond 2^32 differs from the recorded known finding F6")
